@@ -1430,11 +1430,14 @@ impl<'l> CelCompiler<'l> {
         let mut i = Interpreter::empty();
         i.add_bindings(&self.bindings);
         let bc = member_prime_node.into_unresolved_bytecode().resolve();
+        self.bindings.take_not_constant();
         let r = i.run_raw(&bc, true);
 
         match r {
-            Ok(v) => CompiledProg::with_const(v),
-            Err(_) => CompiledProg::with_bytecode(bc),
+            // A value computed from something only known at run time is not a constant,
+            // even if the error that stood in for it was absorbed along the way.
+            Ok(v) if !self.bindings.take_not_constant() => CompiledProg::with_const(v),
+            _ => CompiledProg::with_bytecode(bc),
         }
     }
 }
